@@ -508,6 +508,69 @@ func bigProgram(r *vgen.Rand) program {
 	return p
 }
 
+// deepValue nests bottom under depth levels: shape 0 slice-in-slice, 1 map-in-map, 2 alternating.
+// Every level may carry a sibling (an over-long string) so that a guard that stops
+// descending leaves something visible at several depths, not only at the bottom.
+func deepValue(depth, shape int, sibling bool, bottom val) val {
+	v := bottom
+	for lvl := depth; lvl >= 1; lvl-- {
+		asMap := shape == 1 || (shape == 2 && lvl%2 == 0)
+		if asMap {
+			m := []kvd{{K: "m", V: v}}
+			if sibling && lvl%7 == 0 {
+				m = append(m, kvd{K: "s", V: sv("0123456789abcdef")}, kvd{K: "s", V: sv("ABCDEFGHIJKLMNOP")})
+			}
+			v = val{Kind: log.KindMap, M: m}
+		} else {
+			l := []val{v}
+			if sibling && lvl%7 == 0 {
+				l = append(l, sv("0123456789abcdef"))
+			}
+			v = val{Kind: log.KindSlice, L: l}
+		}
+	}
+	return v
+}
+
+func deepBottom(r *vgen.Rand) val {
+	long := genString(r) + "0123456789" + genString(r)
+	switch r.Intn(3) {
+	case 0:
+		return sv(long)
+	case 1:
+		return val{Kind: log.KindMap, M: []kvd{{"x", sv(long)}, {"y", sv("keep")}, {"x", sv("second" + long)}}}
+	}
+	return val{Kind: log.KindSlice, L: []val{sv(long), {Kind: log.KindMap, M: []kvd{{"d", sv(long)}, {"d", sv(long + "!")}}}}}
+}
+
+// deepProgram: a value nested 33-60 levels deep offered through SetAttributes, AddAttributes on a
+// fresh record, AddAttributes overwriting a key held in the inline array or in the overflow slice.
+func deepProgram(r *vgen.Rand, depth int) program {
+	p := program{CloneAt: -1, CntLim: vgen.Pick(r, []int{-1, 128, 8}), LenLim: vgen.Pick(r, []int{0, 1, 3, 5, 10})}
+	v := deepValue(depth, r.Intn(3), r.Bool(), deepBottom(r))
+	filler := func(n int) []kvd {
+		var out []kvd
+		for j := 0; j < n; j++ {
+			out = append(out, kvd{K: keyPool[j], V: sv("v")})
+		}
+		return out
+	}
+	switch r.Intn(5) {
+	case 0:
+		p.Ops = []op{{Set: true, Attrs: []kvd{{"deep", v}, {"a", sv("0123456789")}}}}
+	case 1:
+		p.Ops = []op{{Attrs: []kvd{{"a", sv("x")}, {"deep", v}}}} // fresh record: fast path
+	case 2:
+		p.Init = []kvd{{"deep", v}} // given at Emit
+	case 3:
+		p.Init = filler(3) // overwrite a key in the inline array
+		p.Ops = []op{{Attrs: []kvd{{keyPool[1], v}}}}
+	default:
+		p.Ops = []op{{Set: true, Attrs: filler(7)}, {Attrs: []kvd{{keyPool[6], v}, {"new", v}}}} // overwrite in the overflow slice + append
+	}
+	return p
+}
+
 // ---------------------------------------------------------------- main
 
 func sv(s string) val { return val{Kind: log.KindString, S: s} }
@@ -616,6 +679,12 @@ func main() {
 	for _, p := range corpus {
 		addProgram(p, "corpus")
 	}
+	// depth 1000 once (slice-in-slice and alternating), an over-long string and a duplicate key at the bottom
+	for shape := 0; shape < 3; shape += 2 {
+		bottom := val{Kind: log.KindMap, M: []kvd{{"x", sv("0123456789")}, {"x", sv("abcdefghij")}}}
+		addProgram(program{CloneAt: -1, CntLim: -1, LenLim: 3, Init: []kvd{{"k", sv("v")}},
+			Ops: []op{{Attrs: []kvd{{"k", deepValue(1000, shape, false, bottom)}}}, {Set: true, Attrs: []kvd{{"s", deepValue(1000, shape, false, bottom)}}}}}, "corpus-deep")
+	}
 
 	// ---- generated programs ----
 	for i := o.Count(1500, 30000); i > 0; i-- {
@@ -652,6 +721,14 @@ func main() {
 	}
 	for i := o.Count(16, 100); i > 0; i-- {
 		addProgram(bigProgram(r), "record-128")
+	}
+
+	// ---- very deep nesting (33-60 levels; the limits have no depth bound) ----
+	for i := o.Count(60, 1000); i > 0; i-- {
+		addProgram(deepProgram(r, r.Range(33, 60)), "deep")
+	}
+	for _, d := range []int{31, 32, 33, 34} { // around a plausible guard constant
+		addProgram(deepProgram(r, d), "deep")
 	}
 
 	// ---- aliasing: Clone, then an interleaved edit script on original and clone, both observed after every step ----
